@@ -1,12 +1,17 @@
 package main
 
 func init() {
+	checks["LISTENTEST"] = func(r *Report, p *Program, tier string) {
+		RuleListen(r, p)
+		RuleImmutable(r, p)
+	}
 	checks["MISCTEST"] = func(r *Report, p *Program, tier string) {
 		RuleBCD(r, p)
 		RuleAddr(r, p)
 		RuleK10(r, p)
 		RuleW26(r, p)
 		RuleJSON(r, p)
+		RuleZone(r, p, NewCodec(r, p, false))
 	}
 	checks["ORDERTEST"] = func(r *Report, p *Program, tier string) {
 		RuleOrder(r, p, "thorough")
